@@ -142,12 +142,14 @@ def run_witness(repo=None):
     if os.path.exists(resf):
         with open(resf) as f:
             return json.load(f)
-    with open(os.path.join(extract.CACHE, "lock-witness"), "w") as lk:
+    # parallel self-test workers (extract.WORKER set) build in their own crate / target directory, so that they do not queue on one lock
+    wsuf = ("-" + str(extract.WORKER)) if getattr(extract, "WORKER", "") else ""
+    with open(os.path.join(extract.CACHE, "lock-witness" + wsuf), "w") as lk:
         fcntl.flock(lk, fcntl.LOCK_EX)
         if os.path.exists(resf):
             with open(resf) as f:
                 return json.load(f)
-        d = os.path.join(root, "crate")
+        d = os.path.join(root, "crate" + wsuf)
         shutil.rmtree(d, ignore_errors=True)
         os.makedirs(os.path.join(d, "src"))
         feats = {"metrique-writer-core": ["test-util"], "metrique-writer": [], "metrique": [], "metrique-core": []}
@@ -165,7 +167,7 @@ def run_witness(repo=None):
         # scratch trees (mutant / seed worktrees at changing paths) get their own build directory, emptied when it grows: path
         # dependencies at a new path rebuild everything and would otherwise pile up in the main one
         scratch = os.path.realpath(repo) != os.path.realpath("/repo")
-        tdir = os.path.join(extract.CACHE, "target-witness-scratch" if scratch else "target-witness")
+        tdir = os.path.join(extract.CACHE, ("target-witness-scratch" + wsuf) if scratch else "target-witness")
         if scratch and os.path.isdir(tdir):
             try:
                 sz = int(subprocess.run(["du", "-sm", tdir], capture_output=True, text=True).stdout.split()[0])
@@ -213,8 +215,11 @@ def run_witness(repo=None):
             json.dump(res, f, indent=1)
         # keep the cache small
         for fn in os.listdir(root):
-            if fn.endswith(".json") and fn != key + ".json" and time.time() - os.path.getmtime(os.path.join(root, fn)) > 3600:
-                os.remove(os.path.join(root, fn))
+            try:
+                if fn.endswith(".json") and fn != key + ".json" and time.time() - os.path.getmtime(os.path.join(root, fn)) > 3600:
+                    os.remove(os.path.join(root, fn))
+            except OSError:
+                pass          # another worker removed it first
         return res
 
 
